@@ -91,8 +91,8 @@ func FuzzHandlePacket(f *testing.F) {
 		}()
 		select {
 		case <-done:
-		case <-time.After(20 * time.Second):
-			t.Fatalf("C13: packet handler did not return within 20 s on %x", data)
+		case <-time.After(120 * time.Second):
+			t.Fatalf("C13: packet handler did not return within 120 s on %x", data)
 		}
 		checkUnchanged(t, n, before, data)
 	})
@@ -110,8 +110,8 @@ func FuzzHandleStream(f *testing.F) {
 		}()
 		select {
 		case <-done:
-		case <-time.After(20 * time.Second):
-			t.Fatalf("C13: stream handler did not return within 20 s on %x", data)
+		case <-time.After(120 * time.Second):
+			t.Fatalf("C13: stream handler did not return within 120 s on %x", data)
 		}
 		checkUnchanged(t, n, before, data)
 	})
